@@ -234,12 +234,34 @@ def run_case(case, ctx):
             viol.append({"key": "C04/session-expiry-handed-to-application-wrong",
                          "what": desc + ": session_info not_on_or_after=%r, expected %r (SessionNotOnOrAfter %r, Conditions NotOnOrAfter %r)" % (
                              got, want, t["sess"], t["cnooa"])})
+    # the same document again after the clock has moved past its earliest NotOnOrAfter (+ allowance): what was valid a moment ago must
+    # be judged against the clock again, not against what was decided before
+    counters_extra = {}
+    if accepted and not must_reject:
+        ends = [t[k] for k in ("cnooa", "snooa", "sess") if t[k] is not None]
+        if ends:
+            later = min(ends) + W + 30
+            clock.set_now(later)
+            r2, e2 = fed.deliver(sp, doc, dict(OUT))
+            counters_extra["replays_after_expiry"] = 1
+            if r2 is not None:
+                viol.append({"key": "C04/accepted-after-expiry-when-seen-valid-before",
+                             "what": desc + "; delivered again at now=%s (earliest NotOnOrAfter %s, allowance %d) it was accepted" % (
+                                 clock.iso(later), clock.iso(min(ends)), W), "detail": {"document": doc[:6000]}})
+            # and a fresh document carrying the very same instants must be judged alike
+            d3 = xk.Doc(doc)
+            doc3 = d3.set_attr(d3.root, "ID", d3.root.attrs["ID"] + "b").text() if not case["signed"] else None
+            if doc3:
+                r3, e3 = fed.deliver(sp, doc3, dict(OUT))
+                if r3 is not None:
+                    viol.append({"key": "C04/accepted-after-expiry-when-seen-valid-before",
+                                 "what": desc + "; a second response with the same instants delivered at now=%s was accepted" % clock.iso(later)})
     clock.set_now(None)
     time_class = exc is not None and type(exc).__name__ in ("ResponseLifetimeExceed", "ToEarly", "VerificationError", "AssertionError", "NotValid")
     decided = sum(ctx.calls.values()) - sum(before.values())
     return {"outcome": outcome, "nontrivial": accepted or time_class or exc is None, "violations": viol,
-            "counters": {"bounds_decided_by_validate_functions": decided, "accepted": int(accepted), "must_accept": int(must_accept),
-                         "must_reject": int(must_reject)},
+            "counters": dict({"bounds_decided_by_validate_functions": decided, "accepted": int(accepted), "must_accept": int(must_accept),
+                              "must_reject": int(must_reject)}, **counters_extra),
             "obs": {"truth": t, "reasons": reasons}}
 
 
